@@ -138,6 +138,29 @@ def cases_for_spec(isa, spec, endian, maxlen, tier):
         yield hb[:k]
 
 
+def prefixed_modrm_cases(isa, spec, tier):
+    """x86/x64: prefix byte(s) + the spec's fixed bits with a ModRM that pulls a SIB byte and a displacement
+    (mod=01 rm=100 / mod=10 rm=100 / mod=00 rm=101 / mod=11), so that a setup function consumes addressing
+    bytes on an instruction object already shared with a pending prefix"""
+    if isa not in ("x86", "x64"):
+        return
+    fs = fmtlang.parse(spec.format)
+    if not fs.variable:
+        return
+    mr = modrm_fields(fs)
+    if not mr:
+        return
+    Mod, RM, REG = mr
+    nb = fs.nbits // 8
+    full = tier == "thorough"
+    prefixes = [p for p in (X86_PREFIXES_T if full else X86_PREFIXES_Q + [b"\x41"]) if p]
+    forms = [(1, 4), (2, 4), (0, 5), (3, 0)] if full else [(1, 4), (0, 5)]
+    for p in prefixes:
+        for (mod, rm) in forms:
+            w = fs.fix | (mod << Mod.lo) | (rm << RM.lo)
+            yield p + w.to_bytes(nb, "little") + b"\x24" + INC[:12]
+
+
 def sweep16():
     """all 65536 two-byte prefixes (callers add a tail)"""
     for i in range(65536):
